@@ -168,6 +168,8 @@ def op_term(pool, o):
         return f"(Slice {emit.z(o[1])} {o[2]} {emit.z(o[3])})"
     if k == "Flood":
         return f"(Flood {o[1]} {emit.nat(o[2])})"
+    if k == "Aug":
+        return f"(Aug {o[1]} {emit.z(o[2])} {pool.ref(o[3])})"
     raise ValueError(o)
 
 
@@ -322,6 +324,22 @@ def run_history(ops):
                 slots[s2] = new
                 meta[s2] = dict(kind=meta[s]["kind"], view=True)
                 seen.append((NOTHING, 0))
+            elif k == "Aug":
+                sgn, s, d = o[1], o[2], o[3]
+                if s not in slots or meta[s]["kind"] != 1:
+                    seen.append((NOTHING, -9))
+                    continue
+                from midgard.data.position import PositionDelta
+                p = slots[s]
+                reqs.append(("aug", sgn, arr_of(np.asarray(p)), d))
+                delta = PositionDelta(mk(*d), system="trs", ref_pos=Position(np.asarray(p).copy(), system="trs"))
+                if sgn == 1:
+                    p += delta
+                else:
+                    p -= delta
+                slots[s] = p            # the name now refers to whatever the augmented assignment left in it
+                meta[s] = dict(kind=1, view=False)
+                seen.append((arr_of(np.asarray(p)), 0))
             elif k == "Flood":
                 fn, n = o[1], o[2]
                 f = _fn(fn)
@@ -364,6 +382,12 @@ def ref_eval(req):
         q = Position(mk(*aq), system=SYS[sq])
         p.other = q
         return arr_of(np.asarray(getattr(p, QNAMES[qt])))
+    if kind == "aug":
+        from midgard.data.position import PositionDelta
+        _, sgn, a, d = req
+        p = Position(mk(*a), system="trs")
+        delta = PositionDelta(mk(*d), system="trs", ref_pos=Position(mk(*a), system="trs"))
+        return arr_of(np.asarray(p + delta if sgn == 1 else p - delta))
     if kind == "pv":
         return ref_pv(req)
     if kind == "time":
@@ -507,9 +531,7 @@ def build_tables(ref, hist_reqs):
     r1 = []
     for reqs in hist_reqs:
         for r in reqs:
-            if r[0] == "conv":
-                r1.append(r)
-            elif r[0] == "rot":
+            if r[0] in ("conv", "rot", "aug"):
                 r1.append(r)
             elif r[0] == "pair":
                 _, sp, ap, sq, aq, qts = r
@@ -549,6 +571,8 @@ def build_tables(ref, hist_reqs):
                 add(r[1], r[2], ((False, r[3]),), ref.get(r))
             elif r[0] == "rot":
                 add(r[1], 0, r[2], ref.get(r))
+            elif r[0] == "aug":
+                add(20 + r[1], 0, ((False, r[2]), (False, r[3])), ref.get(r))
             elif r[0] == "pair":
                 _, sp, ap, sq, aq, qts = r
                 add(1 if sp == 1 else 2, 0, ((False, ap),), ref.get(conv_req(sp, ap)))
@@ -632,6 +656,12 @@ def scenarios(thorough):
                 ("NewPos", 4, 2, A([lp])), ("NewPos", 5, 2, A([ln])), ("NewArr", 6, A([lm]))],
                [("Raw", 2, 0, 0), ("Raw", 2, 0, 1), ("Rot", 3, 0), ("Rot", 3, 1), ("Rot", 4, 6), ("Conv", 2), ("Conv", 3),
                 ("Read", 2, 5), ("Read", 3, 5), ("Read", 4, 6), ("Read", 5, 6)]))
+    # A: augmented assignment with a position delta (the name is re-bound to p + delta; nothing memoised may survive)
+    d3, d23 = A([1234.5, -2500.25, 777.0]), A([[1234.5, -2500.25, 777.0], [-10.0, 20.0, 30.5]])
+    sc.append(("aug",
+               [("NewPos", 0, 1, A(V0)), ("NewPos", 1, 1, A(V1)), ("NewPos", 2, 1, A([V0, V1])), ("SetOther", 0, 1)],
+               [("Conv", 0), ("Read", 0, 5), ("Read", 0, 3), ("Read", 0, 1), ("Aug", 1, 0, d3), ("Aug", 2, 0, d3),
+                ("Conv", 2), ("Aug", 1, 2, d23), ("SetRow", 1, W(V2)), ("Read", 2, 6)]))
     # G: several dependents of one `other`, some of them garbage collected (slot re-bound) before `other` is mutated
     sc.append(("deps",
                [("NewPos", 0, 1, A(V0)), ("NewPos", 1, 1, A(V1)), ("NewPos", 3, 1, A([V0])), ("NewPos", 4, 2, A(L1)),
